@@ -69,6 +69,17 @@ Theorem C09_seats_never_over_committed_qpq : forall A cfg pr fuel s k,
 Proof. exact count_seats_qpq. Qed.
 Print Assumptions C09_seats_never_over_committed_qpq.
 
+(* ... and no recorded snapshot of a QPQ count shows more than [seats] winners either: every action is logged in a state with at most
+   [seats] elected candidates (an election is logged after its status change and happens only while a seat is free; a restart logs
+   nothing) -- Proofs/QpqSnaps.v, every arithmetic *)
+From Droop Require Import Proofs.QpqSnaps.
+Theorem C09_seats_never_over_committed_in_any_snapshot_qpq : forall A cfg pr fuel s k,
+  0 <= cf_nseats cfg -> NoDup (map pc_cid (pr_cands pr)) ->
+  exec (@crashed A) fuel (count_cmd A cfg RQpq) (init_state A cfg pr) = Some (s, k) -> k <> Abort ->
+  Forall (fun sn => nel_sts (ssn A sn) <= cf_nseats cfg) (snaps A (actions s)).
+Proof. exact count_seats_qpq_every_snapshot. Qed.
+Print Assumptions C09_seats_never_over_committed_in_any_snapshot_qpq.
+
 (* what "forward" allows, spelled out *)
 Example C09_forward_relation :
   fwd (Hopeful, None) (Elected, Some true) /\ fwd (Elected, Some true) (Elected, Some false) /\
@@ -133,3 +144,12 @@ Theorem C09_seats_never_over_committed_for_every_accepted_file : forall A S (ZL 
   nlen (electeds A s) <= cf_nseats cfg.
 Proof. exact accepted_seats. Qed.
 Print Assumptions C09_seats_never_over_committed_for_every_accepted_file.
+
+(* QPQ for every accepted file, every arithmetic, files with equal-rank lines included: the seat bound and the exact number of winners
+   with no hypothesis left but the fuel bound hidden in "the count ended" *)
+Theorem C09_qpq_for_every_accepted_file : forall A cfg, 0 <= cf_nseats cfg ->
+  forall text p fuel s k, parse_file text = Ok p ->
+  exec (@crashed A) fuel (count_cmd A cfg RQpq) (init_state A cfg (to_count_profile p)) = Some (s, k) -> k <> Abort ->
+  nlen (electeds A s) <= cf_nseats cfg /\ nlen (electeds A s) = Z.min (cf_nseats cfg) (nlen (eligibles A s)).
+Proof. exact accepted_qpq. Qed.
+Print Assumptions C09_qpq_for_every_accepted_file.
